@@ -12,9 +12,9 @@ import (
 func timedName(c timed.Cfg) string {
 	switch c.Kind {
 	case "emit":
-		return fmt.Sprintf("emit cap=%d freq=%d mode=%s mask=%b gaps=%v cancel-at=%d", c.Cap, c.Freq, c.Mode, c.Mask, c.ConsGaps, c.CancelAt)
+		return fmt.Sprintf("emit cap=%d freq=%d mode=%s mask=%b gaps=%v cancel-at=%d drain=%v", c.Cap, c.Freq, c.Mode, c.Mask, c.ConsGaps, c.CancelAt, c.Drain)
 	case "unfold":
-		return fmt.Sprintf("unfold cap=%d step=%s gaps=%v cancel-at=%d", c.Cap, c.Step, c.ConsGaps, c.CancelAt)
+		return fmt.Sprintf("unfold cap=%d step=%s gaps=%v cancel-at=%d drain=%v", c.Cap, c.Step, c.ConsGaps, c.CancelAt, c.Drain)
 	}
 	return fmt.Sprintf("throttle ops=%d interval=%d cap=%d k=%d prod-gap=%d gaps=%v cancel-at=%d", c.Ops, c.Interval, c.Cap, c.K, c.ProdGap, c.ConsGaps, c.CancelAt)
 }
@@ -67,6 +67,9 @@ func c11Check(c timed.Cfg) func(o *obs.Obs) string {
 		if p := o.AnyPanic(); p != "" {
 			return tag + "/panic|" + p
 		}
+		if o.Horizon {
+			return fmt.Sprintf("%s/cancel-livelock|the consumer keeps receiving after the cancel and the generator keeps delivering (%d values so far): on this path the generator never consults the context, so it does not stop after cancel", tag, o.N("got"))
+		}
 		got := o.Strs("got")
 		if !obs.IsPrefix(got, want) {
 			return fmt.Sprintf("%s/sequence|received %v: not the successive sequence %v (gap, repeat or reorder)", tag, got, want[:min(len(want), len(got)+2)])
@@ -78,7 +81,7 @@ func c11Check(c timed.Cfg) func(o *obs.Obs) string {
 		if !cancelled && stopAt < 0 {
 			return fmt.Sprintf("%s/stuck|the consumer could not finish its script of %d receives (got %v); library: %v", tag, len(c.ConsGaps), got, o.LibBlocked())
 		}
-		if c.CancelAt < 0 && stopAt < 0 && len(got) != len(c.ConsGaps) {
+		if c.CancelAt < 0 && stopAt < 0 && !c.Drain && len(got) != len(c.ConsGaps) {
 			return fmt.Sprintf("%s/stuck|consumer script has %d receives, got %v", tag, len(c.ConsGaps), got)
 		}
 		if c.Kind == "emit" && o.Sim {
@@ -140,12 +143,27 @@ func gapScripts(alphabet []int, maxLen int) [][]int {
 func c11Scenarios(tier string) []e1lib.Scenario {
 	var out []e1lib.Scenario
 	add := func(c timed.Cfg) {
-		out = append(out, e1lib.Scenario{Name: timedName(c), Root: func() { timed.Scenario(c) }, Check: c11Check(c), Bound: -1, Sample: c,
+		out = append(out, e1lib.Scenario{Name: timedName(c), Root: func() { timed.Scenario(c) }, Check: c11Check(c), Bound: -1, Sample: c, Live: c.Drain,
 			Nontrivial: func(outcomes, execs, states int) bool { return len(c.ConsGaps) >= 2 }})
 	}
 	maxLen := 3
 	if tier == "thorough" {
 		maxLen = 4
+	}
+	// liveness: the consumer keeps receiving after it cancelled; explored under the restriction that a thread which can
+	// take a cancelled context's Done arm does so (rt.DonePriority): the generator must then stop within the horizon
+	for cp := 0; cp <= 2; cp++ {
+		for _, g := range []int{0, 2} {
+			for n := 1; n <= 2; n++ {
+				gaps := make([]int, n)
+				for i := range gaps {
+					gaps[i] = g
+				}
+				add(timed.Cfg{Kind: "unfold", Cap: cp, Step: "inc", ConsGaps: gaps, CancelAt: -1, Drain: true})
+				add(timed.Cfg{Kind: "emit", Cap: cp, Freq: 1, Mode: "pure", ConsGaps: gaps, CancelAt: -1, Drain: true})
+				add(timed.Cfg{Kind: "emit", Cap: cp, Freq: 1, Mode: "try", Mask: 0b0110, ConsGaps: gaps, CancelAt: -1, Drain: true})
+			}
+		}
 	}
 	for cp := 0; cp <= 2; cp++ {
 		for _, f := range []int{1, 3} {
@@ -184,6 +202,6 @@ func c11Scenarios(tier string) []e1lib.Scenario {
 
 func propC11() drv.Property {
 	return table("C11",
-		"one case = Emit (cap 0..2, frequency 1 or 3 ticks, Pure / Try with every failing subset of indices 0..3 / Lift) or Unfold (cap 0..2, step +1 / x2 / constant) x consumer receive schedule (every script of gaps over {0, f, 2f} up to 3 (4) receives, after which the consumer cancels) x cancel by a separate thread at every clock grid point 0..4f+1; virtual clock, every interleaving at equal instants explored; non-trivial = script of at least two receives",
+		"one case = Emit (cap 0..2, frequency 1 or 3 ticks, Pure / Try with every failing subset of indices 0..3 / Lift) or Unfold (cap 0..2, step +1 / x2 / constant) x consumer receive schedule (every script of gaps over {0, f, 2f} up to 3 (4) receives, after which the consumer cancels) x cancel by a separate thread at every clock grid point 0..4f+1; virtual clock, every interleaving at equal instants explored; plus liveness scenarios in which the consumer keeps receiving after it cancelled, explored under the restriction that an enabled Done arm of a cancelled context is taken at once (an execution reaching the 400-step horizon there means the generator does not consult the context); non-trivial = script of at least two receives",
 		append(commonAssumptions, "time is the virtual clock of rt: it advances only when no thread can run (the rule of testing/synctest); real-time jitter is not modelled"), c11Scenarios)
 }
